@@ -1,6 +1,8 @@
-(* Proofs/NoPanicStrings.v - C02 for the strings inspector: no method panics on a []string / [][]byte
-   passed by value or by non-nil pointer (Model/Strings.v), whatever the path, operator, operand,
-   iterator; typed nil pointers are dereferenced - refuted in Properties/C02.v. *)
+(* Proofs/NoPanicStrings.v - C02 for the strings inspector: no method panics (Model/Strings.v), whatever
+   the argument ([]string / [][]byte by value or by pointer, typed nil pointer, foreign type), path,
+   operator, operand, iterator, assigned value.  The code before the nil tests (v_nil_ptr = false)
+   dereferenced typed nil pointers - refuted in Properties/C02.v; for it the lemmas hold on every
+   argument that is not a typed nil pointer ([safe]). *)
 From Coq Require Import ZArith Bool String Ascii List Lia Floats.SpecFloat.
 From Verif Require Import Util Ints Strconv Floats Strings StringsOps.
 Import ListNotations.
@@ -8,8 +10,35 @@ Local Open Scope Z_scope.
 
 Definition nopanic {A} (o : Strings.out A) : Prop := match o with Strings.Panic _ => False | _ => True end.
 
-Lemma sp_good x : good x = true -> exists ss pp, sp x = SpOk ss pp.
-Proof. destruct x as [s|s|r|]; try discriminate; intros _; simpl; destruct (q_rep s); eauto. Qed.
+(* an argument the version [w] of the code does not dereference blindly: anything for the code that
+   tests pointers against nil, anything but a typed nil pointer before *)
+Definition safe (w : ver) (x : arg) : bool := match x with ANilPtr _ => v_nil_ptr w | _ => true end.
+(* the same for the value handed to Set *)
+Definition tval_safe (w : ver) (v : tval) : bool :=
+  match v with TStringPtr None | TBytesPtr None => v_nil_ptr w | _ => true end.
+(* the domain of the theorem before the nil tests: no typed nil *string / *[]byte *)
+Definition tval_ok (v : tval) : bool :=
+  match v with TStringPtr None | TBytesPtr None => false | _ => true end.
+
+Lemma safe_fixed w x : v_nil_ptr w = true -> safe w x = true.
+Proof. intros H. destruct x; try reflexivity. exact H. Qed.
+Lemma safe_good w x : good x = true -> safe w x = true.
+Proof. destruct x; try discriminate; reflexivity. Qed.
+Lemma safe_not_nil w x : (forall r, x <> ANilPtr r) -> safe w x = true.
+Proof. intros H. destruct x as [s|s|r|]; try reflexivity. exfalso. exact (H r eq_refl). Qed.
+Lemma tval_safe_fixed w v : v_nil_ptr w = true -> tval_safe w v = true.
+Proof. intros H. destruct v as [t|[t|]|t|[t|]|]; try reflexivity; exact H. Qed.
+Lemma tval_safe_ok w v : tval_ok v = true -> tval_safe w v = true.
+Proof. destruct v as [t|[t|]|t|[t|]|]; try discriminate; reflexivity. Qed.
+
+Lemma sp_safe w x : safe w x = true -> sp w x = SpNotOk \/ exists ss pp, sp w x = SpOk ss pp.
+Proof.
+  destruct x as [s|s|r|]; simpl; intros S.
+  - right. destruct (q_rep s); eauto.
+  - right. destruct (q_rep s); eauto.
+  - right. rewrite S. eauto.
+  - left. reflexivity.
+Qed.
 
 Lemma index_data_ok {A} l idx (k : bytes -> Strings.out A) :
   ((0 <? zlen l) && (idx <? zlen l) = true \/ (0 <? zlen l) && (0 <=? idx) && (idx <? zlen l) = true) -> 0 <= idx ->
@@ -21,18 +50,18 @@ Proof.
   destruct (znth_range l idx H0 R) as (e & ->). apply K.
 Qed.
 
-Lemma get_to_np x path : good x = true -> nopanic (si_get_to x path).
+Lemma get_to_np w x path : safe w x = true -> nopanic (si_get_to w x path).
 Proof.
   intros G. unfold si_get_to. destruct path as [|p [|q r]]; try exact I.
-  destruct (sp_good x G) as (ss & pp & ->).
+  destruct (sp_safe w x G) as [->|(ss & pp & ->)]; [exact I|].
   destruct (atoi p) as [idx|]; [|exact I].
   repeat match goal with |- context [if ?c then _ else _] => destruct c end; exact I.
 Qed.
 
-Lemma compare_np w x o right path : good x = true -> nopanic (si_compare w x o right path).
+Lemma compare_np w x o right path : safe w x = true -> nopanic (si_compare w x o right path).
 Proof.
   intros G. unfold si_compare. destruct path as [|p [|q r]]; try exact I.
-  destruct (sp_good x G) as (ss & pp & ->).
+  destruct (sp_safe w x G) as [->|(ss & pp & ->)]; [exact I|].
   destruct (atoi p) as [idx|]; [|exact I].
   destruct (Z.ltb_spec idx 0) as [N|N]; [exact I|].
   destruct ((0 <? zlen ss) && (idx <? zlen ss)) eqn:E1.
@@ -42,16 +71,16 @@ Proof.
     + destruct (v_cmp_guard w); exact I.
 Qed.
 
-Lemma loop_np x it path : good x = true -> nopanic (si_loop x it path).
+Lemma loop_np w x it path : safe w x = true -> nopanic (si_loop w x it path).
 Proof.
   intros G. unfold si_loop. destruct path; [|exact I].
-  destruct (sp_good x G) as (ss & pp & ->).
+  destruct (sp_safe w x G) as [->|(ss & pp & ->)]; [exact I|].
   repeat match goal with |- context [if ?c then _ else _] => destruct c end; exact I.
 Qed.
 
-Lemma length_np x path : good x = true -> nopanic (si_length x path).
+Lemma length_np w x path : safe w x = true -> nopanic (si_length w x path).
 Proof.
-  intros G. unfold si_length. destruct (sp_good x G) as (ss & pp & ->).
+  intros G. unfold si_length. destruct (sp_safe w x G) as [->|(ss & pp & ->)]; [exact I|].
   destruct path as [|p [|q r]]; try exact I.
   destruct (atoi p) as [idx|]; [|exact I].
   destruct ((0 <? zlen ss) && (0 <=? idx) && (idx <? zlen ss)) eqn:E1.
@@ -64,9 +93,9 @@ Proof.
     + intros s. exact I.
 Qed.
 
-Lemma capacity_np x path : good x = true -> nopanic (si_capacity x path).
+Lemma capacity_np w x path : safe w x = true -> nopanic (si_capacity w x path).
 Proof.
-  intros G. unfold si_capacity. destruct (sp_good x G) as (ss & pp & ->).
+  intros G. unfold si_capacity. destruct (sp_safe w x G) as [->|(ss & pp & ->)]; [exact I|].
   destruct path as [|p [|q r]]; try (destruct (0 <? zlen pp); exact I).
   destruct (atoi p) as [idx|]; [|exact I].
   destruct ((0 <? zlen pp) && (0 <=? idx) && (idx <? zlen pp)) eqn:E; [|exact I].
@@ -75,50 +104,96 @@ Proof.
   destruct (znth_range pp idx E2 E3) as (e & ->). exact I.
 Qed.
 
-Lemma deep_equal_np w l r : good l = true -> good r = true -> nopanic (si_deep_equal w l r).
+Lemma deep_equal_np w l r : safe w l = true -> safe w r = true -> nopanic (si_deep_equal w l r).
 Proof.
   intros GL GR. unfold si_deep_equal.
-  destruct (sp_good l GL) as (ss & pp & ->). destruct (sp_good r GR) as (ss' & pp' & ->).
+  destruct (sp_safe w l GL) as [->|(ss & pp & ->)]; [exact I|].
+  destruct (sp_safe w r GR) as [->|(ss' & pp' & ->)]; [exact I|].
   repeat match goal with |- context [if ?c then _ else _] => destruct c end; exact I.
 Qed.
 
-Lemma reset_np x : good x = true -> nopanic (si_reset x).
-Proof. destruct x; try discriminate; intros _; exact I. Qed.
+Lemma reset_np w x : safe w x = true -> nopanic (si_reset w x).
+Proof. destruct x; simpl; intros S; try exact I. rewrite S. exact I. Qed.
 
-(* CopyTo: the destination may be by value, a non-nil pointer or of a foreign type *)
-Lemma copy_to_np src dst nid : good src = true -> (forall r, dst <> ANilPtr r) -> nopanic (si_copy_to src dst nid).
+(* CopyTo: source and destination *)
+Lemma copy_to_np w src dst nid : safe w src = true -> safe w dst = true -> nopanic (si_copy_to w src dst nid).
 Proof.
-  intros G D. unfold si_copy_to. destruct (sp_good src G) as (ss & pp & ->).
+  intros G D. unfold si_copy_to. destruct (sp_safe w src G) as [->|(ss & pp & ->)]; [exact I|].
   destruct dst as [d|d|r|]; try exact I.
   - destruct (q_rep d); exact I.
-  - exfalso. exact (D r eq_refl).
+  - simpl in D. rewrite D. exact I.
 Qed.
 
-Lemma copy_np x nid : good x = true -> nopanic (si_copy x nid).
+Lemma copy_np w x nid : safe w x = true -> nopanic (si_copy w x nid).
 Proof.
   intros G. unfold si_copy.
-  pose proof (copy_to_np x (APtr (nil_sq SS)) nid G) as H.
-  destruct (si_copy_to x (APtr (nil_sq SS)) nid) as [[d n] e|k].
+  pose proof (copy_to_np w x (APtr (nil_sq SS)) nid G eq_refl) as H.
+  destruct (si_copy_to w x (APtr (nil_sq SS)) nid) as [[d n] e|k].
   - destruct d; exact I.
-  - apply H. intros r. discriminate.
+  - exact H.
 Qed.
 
-(* Set: the assigned value may be anything but a typed nil *string / *[]byte *)
-Definition tval_ok (v : tval) : bool :=
-  match v with TStringPtr None | TBytesPtr None => false | _ => true end.
-
-Lemma set_np w x v path nid : good x = true -> tval_ok v = true -> nopanic (si_set_with_buffer w x v path nid).
+Lemma set_np w x v path nid : safe w x = true -> tval_safe w v = true -> nopanic (si_set_with_buffer w x v path nid).
 Proof.
   intros G T. unfold si_set_with_buffer. destruct path as [|p [|q r]]; try exact I.
-  destruct (sp_good x G) as (ss & pp & ->).
+  destruct (sp_safe w x G) as [->|(ss & pp & ->)]; [exact I|].
   destruct (atoi p) as [idx|]; [|exact I].
-  assert (S1 : forall l, nopanic (store w x l idx (sel_ss v) nid)).
-  { intros l. unfold store, sel_ss. destruct v as [t|[t|]|t|[t|]|]; try discriminate; try exact I;
+  assert (S1 : forall l, nopanic (store w x l idx (sel_ss w v) nid)).
+  { intros l. unfold store, sel_ss. destruct v as [t|[t|]|t|[t|]|]; simpl in T; rewrite ?T; try exact I;
       match goal with |- context [if ?c then _ else _] => destruct c end; exact I. }
-  assert (S2 : forall l, nopanic (store w x l idx (sel_pp v) nid)).
-  { intros l. unfold store, sel_pp. destruct v as [t|[t|]|t|[t|]|]; try discriminate; try exact I;
+  assert (S2 : forall l, nopanic (store w x l idx (sel_pp w v) nid)).
+  { intros l. unfold store, sel_pp. destruct v as [t|[t|]|t|[t|]|]; simpl in T; rewrite ?T; try exact I;
       match goal with |- context [if ?c then _ else _] => destruct c end; exact I. }
   destruct (idx <? 0); [exact I|].
   destruct ((0 <? zlen ss) && (idx <? zlen ss)); [apply S1|].
   destruct ((0 <? zlen pp) && (idx <? zlen pp)); [apply S2|exact I].
+Qed.
+
+(* ---------- what the code with the nil tests answers for typed nil pointers ---------- *)
+(* every read (DeepEqual's operands and the source of Copy / CopyTo included) treats a nil pointer as the
+   nil slice of that representation handed in by value *)
+Lemma nil_pointer_reads_as_nil_slice w r path o right it y dst nid : v_nil_ptr w = true ->
+  si_get_to w (ANilPtr r) path = si_get_to w (AVal (nil_sq r)) path /\
+  si_compare w (ANilPtr r) o right path = si_compare w (AVal (nil_sq r)) o right path /\
+  si_loop w (ANilPtr r) it path = si_loop w (AVal (nil_sq r)) it path /\
+  si_length w (ANilPtr r) path = si_length w (AVal (nil_sq r)) path /\
+  si_capacity w (ANilPtr r) path = si_capacity w (AVal (nil_sq r)) path /\
+  si_deep_equal w (ANilPtr r) y = si_deep_equal w (AVal (nil_sq r)) y /\
+  si_deep_equal w y (ANilPtr r) = si_deep_equal w y (AVal (nil_sq r)) /\
+  si_copy w (ANilPtr r) nid = si_copy w (AVal (nil_sq r)) nid /\
+  si_copy_to w (ANilPtr r) dst nid = si_copy_to w (AVal (nil_sq r)) dst nid.
+Proof.
+  intros N.
+  assert (S : sp w (ANilPtr r) = sp w (AVal (nil_sq r))) by (simpl; rewrite N; destruct r; reflexivity).
+  unfold si_get_to, si_compare, si_loop, si_length, si_capacity, si_deep_equal, si_copy, si_copy_to. rewrite S.
+  repeat split.
+  destruct r; simpl; destruct path as [|p [|q t]]; try reflexivity; destruct (atoi p); reflexivity.
+Qed.
+
+(* nothing is written through a nil pointer: Set leaves it alone, Reset and CopyTo refuse it *)
+Lemma nil_pointer_not_written w r src v path nid : v_nil_ptr w = true ->
+  (exists e, si_set_with_buffer w (ANilPtr r) v path nid = Ret (ANilPtr r, nid) e) /\
+  si_reset w (ANilPtr r) = Ret (ANilPtr r) (Some EUnsupported) /\
+  si_copy_to w src (ANilPtr r) nid = Ret (ANilPtr r, nid) (Some EUnsupported).
+Proof.
+  intros N. split; [|split].
+  - unfold si_set_with_buffer. destruct path as [|p [|q t]]; try (eexists; reflexivity).
+    simpl. rewrite N. destruct (atoi p) as [idx|]; [|eexists; reflexivity].
+    destruct (idx <? 0); eexists; reflexivity.
+  - simpl. rewrite N. reflexivity.
+  - unfold si_copy_to. destruct (sp_safe w src (safe_fixed w src N)) as [->|(ss & pp & ->)]; [reflexivity|].
+    rewrite N. reflexivity.
+Qed.
+
+(* a typed nil *string / *[]byte handed to Set is no text: nothing is stored, whatever the sequence *)
+Lemma nil_text_ignored w x v path nid : v_nil_ptr w = true -> tval_ok v = false ->
+  exists e, si_set_with_buffer w x v path nid = Ret (x, nid) e.
+Proof.
+  intros N T. unfold si_set_with_buffer. destruct path as [|p [|q t]]; try (eexists; reflexivity).
+  destruct (sp_safe w x (safe_fixed w x N)) as [->|(ss & pp & ->)]; [eexists; reflexivity|].
+  destruct (atoi p) as [idx|]; [|eexists; reflexivity].
+  assert (S1 : sel_ss w v = SelNone) by (destruct v as [t|[t|]|t|[t|]|]; try discriminate; simpl; rewrite ?N; reflexivity).
+  assert (S2 : sel_pp w v = SelNone) by (destruct v as [t|[t|]|t|[t|]|]; try discriminate; simpl; rewrite ?N; reflexivity).
+  rewrite S1, S2. unfold store.
+  repeat match goal with |- context [if ?c then _ else _] => destruct c end; eexists; reflexivity.
 Qed.
